@@ -136,6 +136,16 @@ func workspace(version int) []moduleSrc {
 		"beta/v1/b2.proto": "syntax = \"proto3\";\npackage beta.v1;\nimport \"beta/v1/b.proto\";\nmessage B2 { B b = 1; }\n",
 	}}
 	mods = append(mods, b)
+	// packages that import each other along two routes (pa -> pb -> pa and pa -> pb -> pc -> pa; the files form a DAG)
+	mods = append(mods, moduleSrc{name: "cyc", files: map[string]string{
+		"cyc/pa/a1.proto": "syntax = \"proto3\";\npackage cyc.pa;\nimport \"cyc/pb/b1.proto\";\nmessage A1 { cyc.pb.B1 b = 1; }\n",
+		"cyc/pa/a2.proto": "syntax = \"proto3\";\npackage cyc.pa;\nmessage A2 { string id = 1; }\n",
+		"cyc/pb/b1.proto": "syntax = \"proto3\";\npackage cyc.pb;\nmessage B1 { string id = 1; }\n",
+		"cyc/pb/b2.proto": "syntax = \"proto3\";\npackage cyc.pb;\nimport \"cyc/pa/a2.proto\";\nmessage B2 { cyc.pa.A2 a = 1; }\n",
+		"cyc/pb/b3.proto": "syntax = \"proto3\";\npackage cyc.pb;\nimport \"cyc/pc/c1.proto\";\nmessage B3 { cyc.pc.C1 c = 1; }\n",
+		"cyc/pc/c1.proto": "syntax = \"proto3\";\npackage cyc.pc;\nmessage C1 { string id = 1; }\n",
+		"cyc/pc/c2.proto": "syntax = \"proto3\";\npackage cyc.pc;\nimport \"cyc/pa/a2.proto\";\nmessage C2 { cyc.pa.A2 a = 1; }\n",
+	}})
 	for _, n := range []string{"gamma", "delta", "epsilon", "zeta"} {
 		mods = append(mods, moduleSrc{name: n, files: map[string]string{
 			n + "/v1/x.proto": "syntax = \"proto3\";\npackage " + n + ".v1;\nmessage X { string id = 1; }\n",
